@@ -14,9 +14,9 @@ Three-way differential (DESIGN.md section 4, C17):
              of measure / reset / barrier per qubit).
   expr     parameter expressions (edge forms and random trees): Lark tree shape, Python
            text, value  -- bqskit vs Lean model vs reference value vs Qiskit.
-  known    one targeted family per known defect of the reader (each re-observed defect is
-           reported under its own signature; the Lean model must reproduce the defective
-           behaviour exactly).
+  regress  the constructs the reader used to get wrong before the fix: commits in /repo
+           (parentheses, sqrt/exp, negative actuals under ^, lists of whole registers, reset /
+           measure of a later register, several measurement placeholders): ordinary cases now.
   malformed  programs outside the subset: must be rejected (or ignored as documented),
            model and implementation must agree on accept/reject and on what is read.
   ext      bqskit.ext qiskit translators (thin wrappers around the same code).
